@@ -300,9 +300,11 @@ def notRenderedInPlace (name : Str) : Bool :=
   name == cs!"linearGradient" || name == cs!"radialGradient" || name == cs!"filter"
 
 /-- registration at the end of `Container`: the content box is recorded on the element (unless defs /
-    symbol); only a box that also counts for the parent makes the element the "previous" one -/
+    symbol); a clipPath / mask / ... is registered even without a box (a `url(#id)` naming it is then
+    satisfied, with no effect on the extent); only a box that also counts for the parent makes the
+    element the "previous" one -/
 def finishContainer (ev : Evalr ρ) (st : St ρ) (ne : Elem) (bb : Option BoundingBox) : St ρ :=
-  let st := if bb.isSome then updateElement ev st { ne with contentBBox := bb } else st
+  let st := if bb.isSome || notRenderedInPlace ne.name then updateElement ev st { ne with contentBBox := bb } else st
   if bb.isSome && !notRenderedInPlace ne.name then setPrev st { ne with contentBBox := bb } else st
 
 /-- `VarElement`: all right-hand sides are evaluated in the pre-state, then assigned together -/
